@@ -306,8 +306,11 @@ func r122(c *fw.Ctx) {
 
 // ---------------------------------------------------------------------------
 
-func r123(c *fw.Ctx) {
-	const rule = "R12.3"
+func r123(c *fw.Ctx) { r123as(c, "R12.3", true) }
+
+// r123as runs the conversion-parenthesisation rule under another rule id (C02: a conversion must be
+// reproduced as that conversion); withPrinter adds the printer-fork clause.
+func r123as(c *fw.Ctx, rule string, withPrinter bool) {
 	fd, p := needDecl(c, rule, "matchTypeCast")
 	if fd == nil {
 		return
@@ -418,6 +421,9 @@ func r123(c *fw.Ctx) {
 			continue
 		}
 		c.Check(ok, rule, key, cc.Pos(), "a conversion to a receive-only channel type (and to every pointer type) must be parenthesised: `<-chan T(x)` parses as a receive from `chan T(x)`")
+	}
+	if !withPrinter {
+		return
 	}
 	// the printer fork parenthesises func types in call position
 	pp := c.Pkg("internal/go/printer")
